@@ -691,7 +691,7 @@ def _forced_conflict(draw, base):
     n = len(base["cells"])
     shape = draw(st.sampled_from(["del_vs_edit", "edit_vs_del", "both_edit_source", "both_edit_outputs", "both_edit_meta",
                                   "both_insert_same_pos", "both_insert_similar", "both_insert_runs", "both_insert_runs", "insert_next_to_edit", "insert_next_to_del",
-                                  "both_append_nonl", "both_attach", "both_attach_leftover", "same_insert_next_line_edit", "same_insert_next_line_edit", "both_add_outputs_shared", "both_add_outputs_shared", "attach_del_vs_edit", "out_insert_vs_change", "out_insert_vs_change", "same_output_line_small_edits", "same_output_line_small_edits", "both_replace_sub", "both_replace_sub", "both_replace_sub", "both_edit_text_with_nul", "both_nbmeta", "both_minor", "both_del", "both_ec", "both_change_id",
+                                  "both_append_nonl", "both_attach", "both_attach_leftover", "same_insert_next_line_edit", "same_insert_next_line_edit", "both_add_outputs_shared", "both_add_outputs_shared", "attach_del_vs_edit", "out_insert_vs_change", "out_insert_vs_change", "same_output_line_small_edits", "same_output_line_small_edits", "both_replace_sub", "both_replace_sub", "both_replace_sub", "both_edit_text_with_nul", "rerun_print_differs_result_same", "rerun_print_differs_result_same", "both_nbmeta", "both_minor", "both_del", "both_ec", "both_change_id",
                                   "both_same_edit", "both_edit_same_output", "both_edit_same_output", "transient_meta", "type_vs_edit", "type_vs_edit", "type_vs_edit", "both_rerun", "both_rerun", "both_rerun", "both_rerun", "two_outputs", "two_outputs", "both_insert_block"]))
     usedl, usedr = _ids(l), _ids(r)
     if shape == "both_insert_runs":
@@ -727,7 +727,7 @@ def _forced_conflict(draw, base):
         return l, r, shape
     i = draw(st.integers(0, n - 1))
     code_idx = [k for k, x in enumerate(base["cells"]) if x["cell_type"] == "code"]
-    if code_idx and shape in ("both_add_outputs_shared", "out_insert_vs_change", "same_output_line_small_edits", "both_edit_outputs", "both_ec", "both_edit_same_output", "transient_meta", "type_vs_edit", "both_rerun", "two_outputs"):
+    if code_idx and shape in ("rerun_print_differs_result_same", "both_add_outputs_shared", "out_insert_vs_change", "same_output_line_small_edits", "both_edit_outputs", "both_ec", "both_edit_same_output", "transient_meta", "type_vs_edit", "both_rerun", "two_outputs"):
         i = draw(st.sampled_from(code_idx))      # shapes about outputs / execution counts need a code cell
     c = base["cells"][i]
     dve = draw(st.sampled_from([None, None, ["source", "rerun"], ["source", "toggle"], ["rerun"], ["rerun", "toggle"], ["source", "outputs"]]))
@@ -921,6 +921,22 @@ def _forced_conflict(draw, base):
                 if tag == more_side:
                     new = ["# follow-up\n"] + new if extra_first else new + ["follow_up(rewritten)\n"]
                 side["cells"][i]["source"] = "".join(lines[:k] + new + lines[k + 1:])
+    elif shape == "rerun_print_differs_result_same" and c["cell_type"] == "code":
+        # both sides re-ran a cell that prints something and returns a value: the printed text differs, the value is the same and only
+        # its execution count moved on (differently on the two sides)
+        outs = [{"output_type": "stream", "name": "stdout", "text": "run at 10:00\n"},
+                {"output_type": "execute_result", "data": {"text/plain": draw(st.sampled_from(REPRS))}, "metadata": {}, "execution_count": 1}]
+        if draw(st.booleans()):
+            outs.reverse()
+        for nb_, (txt, ec) in ((base, ("run at 10:00\n", 1)), (l, ("run at 11:30\n", 2)), (r, ("run at 12:45\n", draw(st.sampled_from([3, 3, 2]))))):
+            cc = nb_["cells"][i]
+            cc["outputs"] = copy.deepcopy(outs)
+            cc["execution_count"] = ec
+            for o in cc["outputs"]:
+                if o["output_type"] == "stream":
+                    o["text"] = txt
+                else:
+                    o["execution_count"] = ec
     elif shape == "both_edit_text_with_nul":
         # both sides edit the same line of a source that holds a NUL character (valid JSON; external merge tools call it binary)
         src = "a = 1\nb = '\x00'\nc = 3\n"
